@@ -132,6 +132,7 @@ def run_trees(seed, trials):
     R = _R()
     rng = random.Random(seed)
     cnt = [0]
+    pooled = [False]
     problems_early = []
 
     def gen(depth, aw, dw, leaf_align=0):
@@ -141,7 +142,9 @@ def run_trees(seed, trials):
             kind = rng.choice(["res", "res", "win"]) if depth > 0 else "res"
             try:
                 if kind == "res":
-                    r = R(); cnt[0] += 1; name = f"r{cnt[0]}"
+                    # (in one tree out of three resource names come from a small pool: windows are then refused for name clashes,
+                    #  also clashes with names a window absorbed from its own anonymous windows - a refusal must leave no trace)
+                    r = R(); cnt[0] += 1; name = f"r{cnt[0]}" if not pooled[0] else rng.choice(["a", "b", "c", "d", "e", "f"])
                     s, e = m.add_resource(r, name=name, size=rng.choice([1, 1, 2, 3, 4]),
                                           addr=rng.choice([None, None, None, rng.randrange(0, 1 << aw)]), alignment=rng.choice([None, None, 0, 1, 2]))
                     exp.append((r, (MemoryMap.Name(name),), s, e, dw))
@@ -163,6 +166,8 @@ def run_trees(seed, trials):
                         exp.append((res, p, s + cs // r, s + ce // r, cwid * r))
             except ValueError:
                 pass
+            except Exception as ex_:
+                problems_early.append(("a call that should succeed or be refused with ValueError raised", type(ex_).__name__, str(ex_)[:80])); break
             # queries while the map is still being built (a map may be inspected at any time: nothing may be remembered from it)
             if rng.random() < 0.35:
                 try:
@@ -176,6 +181,7 @@ def run_trees(seed, trials):
     problems = problems_early
     for t in range(trials):
         aw = rng.randint(2, 7); dw = rng.choice([8, 16, 32, 32, 24])      # 24: ratio 3 over 8-bit children (must be refused)
+        pooled[0] = t % 3 == 2
         m, exp = gen(rng.randint(0, 3), aw, dw)
         exp.sort(key=lambda x: x[2])
         desc = f"seed={seed} trial={t} aw={aw} dw={dw}"
